@@ -15,6 +15,12 @@ impl ScopedCounter {
         }
     }
 
+    pub fn with_count(count: usize) -> ScopedCounter {
+        ScopedCounter {
+            count: RefCell::new(count),
+        }
+    }
+
     pub fn count(&self) -> usize {
         *self.count.borrow()
     }
